@@ -31,7 +31,7 @@ Proof. apply PW_frame; destruct t; reflexivity. Qed.
 Lemma PW_write c m w : w_proto w = Some c -> PW w -> PW (conn_write c m w).
 Proof.
   intros Hp H. unfold conn_write. destruct (conn_connected c w); auto.
-  unfold PW, emit. cbn. intros c' m' [Hi|Hi]; [inversion Hi; subst; auto | auto].
+  unfold PW, emit. cbn. intros c' m' [Hi|Hi]; [inversion Hi; subst; auto | eauto].
 Qed.
 Lemma PW_with_proto f w :
   (forall c w, w_proto w = Some c -> PW w -> PW (f c w)) -> PW w -> PW (with_proto f w).
@@ -57,14 +57,14 @@ Proof.
     apply PW_emit; [intros; discriminate|]. eapply PW_frame; [reflexivity|reflexivity|].
     apply PW_write.
     + unfold capability_negotiate. destruct (w_capr w'); auto.
-    + unfold capability_negotiate. destruct (w_capr w'); auto. eapply PW_frame; [| |exact H']; reflexivity.
+    + unfold capability_negotiate. destruct (w_capr w'); auto; try (eapply PW_frame; [| |exact H']; reflexivity).
   - intros w H. apply PW_with_proto; auto. intros c w' Hp H'. unfold conn_send_keepalive.
-    apply PW_write; auto. eapply PW_frame; [| |exact H']; reflexivity.
+    apply PW_write; auto; try (eapply PW_frame; [| |exact H']; reflexivity).
   - intros code s d w H. apply PW_with_proto; auto. intros c w' Hp H'. unfold conn_send_notification.
-    apply PW_write; auto. eapply PW_frame; [| |exact H']; reflexivity.
+    apply PW_write; auto; try (eapply PW_frame; [| |exact H']; reflexivity).
   - intros w H. apply PW_with_proto; auto. intros c w' Hp H'. unfold conn_close.
     destruct (conn_connected c w'); auto. eapply PW_frame; [reflexivity|reflexivity|].
-    destruct (c_closing (get_conn c w')); auto. apply PW_emit; auto. intros; discriminate.
+    destruct (c_closing (get_conn c w')); auto; try (apply PW_emit; auto; intros; discriminate).
   - intros w H. unfold peering_connect. destruct (st_is w StEstablished); auto.
     apply PW_emit; [intros; discriminate|]. eapply PW_frame; [| |exact H]; reflexivity.
 Qed.
